@@ -3,6 +3,7 @@ package main
 import (
 	"fmt"
 	"go/types"
+	"sort"
 	"strings"
 
 	"golang.org/x/tools/go/ssa"
@@ -124,6 +125,7 @@ func runC18(c *Ctx) {
 	ruleNoMutationThroughAlias(c, "R18.d")
 	ruleNoStaleFieldSnapshot(c, "R18.e")
 	ruleFullPrecisionNumbers(c, "R18.f")
+	ruleStoreIndexSafety(c, "R18.g")
 
 	rid = "R18.c"
 	c.rule(rid, "the example handlers Set and HSet store the value parameter itself (no transformation) into the record / hash")
@@ -417,4 +419,20 @@ func ruleFullPrecisionNumbers(c *Ctx, rid string) {
 	if bad == 0 {
 		c.ok(rid, "float64-everywhere", "", fmt.Sprintf("%d float conversions, all 64-bit", n))
 	}
+}
+
+// ruleStoreIndexSafety: R18.g / R07 — the example store answers every supported command: no
+// index or slice expression of its handlers and containers can be out of range, whatever
+// offsets, counts and limits the client sends (a panic is swallowed by the connection barrier:
+// the request gets no reply at all and the connection is dropped).
+func ruleStoreIndexSafety(c *Ctx, rid string) {
+	c.rule(rid, "A8 over the bundled example store (examples/go-redisd/server): every index and slice expression is proven in range by the inequality prover from the dominating tests, for all client-supplied offsets, counts and limits")
+	var scope []*ssa.Function
+	for _, f := range c.P.RepoFuncs(pkgExSrv) {
+		if inProd(f) && f.Blocks != nil && f.Synthetic == "" {
+			scope = append(scope, f)
+		}
+	}
+	sort.Slice(scope, func(i, j int) bool { return c.P.key(scope[i]) < c.P.key(scope[j]) })
+	rulePanicSitesIn(c, rid, scope, "store-index-sites", 3)
 }
